@@ -378,6 +378,46 @@ def check_dims(ctx, chk):
            f"obs_shape {cn.show(st.get('obs_shape', C(None)))}; aux_row "
            f"{cn.show(st.get('aux_row', C(None)))}; tensor {cn.show(tens)}",
            f"{ob.module.path}:{init.node.lineno}")
+    # the state tensor itself: one row per host of the network, one column per layout position
+    st = ctx.repo.cls(STATE_MOD, "State")
+    tz = st.methods.get("tensorize")
+    if tz is not None:
+        ip = Interp(ctx.repo, ctx.types, param_types={tz.params[1]: "Network"},
+                    no_inline=("nasim.envs.host_vector:HostVector.vectorize",))
+        s = ip.run(tz, {tz.params[0]: ("classref", "State")})
+        cn = Canon(ip, ctx.layout)
+        NW = tz.params[1]
+        zs = [ev for ev in s.events if ev.kind == "call" and ev.data["fname"] == "numpy.zeros"]
+        V = "nasim.envs.host_vector:HostVector.vectorize"
+        zshape = cn.show(zs[0].data["args"][0]) if zs else ""
+        import re
+        ok = len(zs) == 1 and re.fullmatch(
+            r"\(len\((\w+)\.hosts\), (nasim\.envs\.host_vector:HostVector\.vectorize\("
+            r"(HostVector, )?\1\.hosts\[\(1, 0\)\], \1\.address_space_bounds\)|HostVector)"
+            r"\.state_size\)", zshape) is not None \
+            and dict(zs[0].data["kwargs"]).get("dtype") == ("ext", "numpy.float32")
+        rows = [ev for ev in s.events if ev.kind == "call" and ev.data["fname"] == V
+                and len([a for a in ev.data["args"] if a[0] != "classref"]) >= 3]
+        rok = False
+        if len(rows) == 1:
+            a = [x for x in rows[0].data["args"] if x[0] != "classref"]
+            # canonical row form T[addr] (the index goes through host_num_map[addr])
+            rok = cn.norm(a[2])[0] == "row" and re.fullmatch(
+                r"zeros\(.*\)\[each\(\w+\.hosts\.items\(\)\)\[0\]\]", cn.show(a[2])) is not None and \
+                re.fullmatch(r"each\(\w+\.hosts\.items\(\)\)\[1\]", cn.show(a[0])) is not None
+        chk.ob("C09.dims", "State.tensorize: float32 zeros of shape (#hosts, state_size); every host "
+               "is vectorised into the row host_num_map[address]", ok and rok,
+               f"zeros{[cn.show(z.data['args'][0]) for z in zs]}; row writes "
+               f"{[[cn.show(x)[-60:] for x in r.data['args']] for r in rows]}",
+               f"{st.module.path}:{tz.node.lineno}")
+        sh = st.methods.get("shape")
+        if sh is not None:
+            ip = Interp(ctx.repo, ctx.types, param_types={sh.params[0]: "State"})
+            s = ip.run(sh)
+            cn = Canon(ip, ctx.layout)
+            chk.ob("C09.dims", "State.shape() is the tensor's shape",
+                   [cn.show(t) for _, t in s.returns] == [f"{sh.params[0]}.shape"],
+                   str([cn.show(t) for _, t in s.returns]), st.module.path, nontrivial=False)
     slots = []
     for n in ("_success_idx", "_conn_error_idx", "_perm_error_idx", "_undef_error_idx"):
         ok, v = ctx.repo.class_const(ob, n)
